@@ -765,7 +765,7 @@ func TestVerifC13Zone(t *testing.T) {
 		tc := time.Now()
 		r := w.run(cs)
 		c.Add("cases", 1)
-		if d := time.Since(tc); d > 8*time.Second {
+		if d := time.Since(tc); d > 12*time.Second {
 			c.Add("slow_cases", 1)
 			fo := "-"
 			if r.Follow != nil {
